@@ -291,4 +291,121 @@ theorem outcomeC_same (c0 : RQJ.Config) (s : SysC N) (i : Fin N) (m : Msg1 N) (h
             exact this
           simpa using this
 
+/-- when an input may be given to node `i` of `s` -/
+def enabledC (c0 : RQJ.Config) (s : SysC N) (i : Fin N) : InputC N → Prop
+| .recv m => s.l1.net m ∧ m.dst = i ∧ snapOK c0 i ⟨s.l1.nodes i, s.applied i, s.pend i⟩ m
+| .restart a => a ≤ s.applied i
+| _ => True
+
+theorem snapOK_bump {c0 : RQJ.Config} {i : Fin N} {n : Node1 N} {a p p' t : Nat} {l : Option (Fin N)} {m : Msg1 N}
+    (h : snapOK c0 i ⟨n, a, p⟩ m) : snapOK c0 i ⟨bump n t l, a, p'⟩ m := by
+  cases m <;> first | trivial | exact h
+
+/-- **handler ⊆ L1C, the inputs proved so far**: `hup`, `selfAck`, `beat`, `restart a`, `recv m` (every message kind, any term) -/
+theorem handleC_outcome_partial (c0 : RQJ.Config) (s : SysC N) (i : Fin N) (inp : InputC N) (hen : enabledC c0 s i inp)
+    (happ : s.applied i ≤ (s.l1.nodes i).commit) (hkind : ∀ vs, inp ≠ .prop vs) (hkind' : ∀ k, inp ≠ .applyTo k) :
+    OutcomeC c0 s i (handleC c0 i ⟨s.l1.nodes i, s.applied i, s.pend i⟩ inp).1 (handleC c0 i ⟨s.l1.nodes i, s.applied i, s.pend i⟩ inp).2 := by
+  cases inp with
+  | prop vs => exact absurd rfl (hkind vs)
+  | applyTo k => exact absurd rfl (hkind' k)
+  | beat => exact OutcomeC.stay' rfl
+  | restart a =>
+    exact outcomeC_of_step (StepC.restart s i a hen) (by simp [handleC, cRestart, SysC.put]) (fun _ h => h) (fun _ h => by cases h)
+  | selfAck =>
+    simp only [handleC]
+    by_cases hl : (s.l1.nodes i).role = Role.leader
+    · rw [if_pos hl]
+      have hrole : (ackC (cfgOf c0 ⟨s.l1.nodes i, s.applied i, s.pend i⟩) (s.l1.nodes i) i (s.l1.nodes i).log.length).role = .leader := by
+        unfold ackC; by_cases hp : hasProg (cfgOf c0 ⟨s.l1.nodes i, s.applied i, s.pend i⟩) i = true
+        · rw [if_pos hp]; exact hl
+        · rw [if_neg hp]; exact hl
+      have hlog : (ackC (cfgOf c0 ⟨s.l1.nodes i, s.applied i, s.pend i⟩) (s.l1.nodes i) i (s.l1.nodes i).log.length).log = (s.l1.nodes i).log := by
+        unfold ackC; by_cases hp : hasProg (cfgOf c0 ⟨s.l1.nodes i, s.applied i, s.pend i⟩) i = true
+        · rw [if_pos hp]; rfl
+        · rw [if_neg hp]
+      have st1 : OutcomeC c0 s i ⟨ackC (cfgOf c0 ⟨s.l1.nodes i, s.applied i, s.pend i⟩) (s.l1.nodes i) i (s.l1.nodes i).log.length,
+          s.applied i, s.pend i⟩ [] := by
+        unfold ackC
+        by_cases hp : hasProg (cfgOf c0 ⟨s.l1.nodes i, s.applied i, s.pend i⟩) i = true
+        · rw [if_pos hp]; exact outcomeC_lift (Step1L.selfAck s.l1 i hl) (fun _ h => h) (fun _ h => by cases h)
+        · rw [if_neg hp]; exact OutcomeC.stay' rfl
+      refine OutcomeC.chain0 st1 fun net1 _ => ?_
+      have := outcomeC_maybeCommit c0 (s.put i ⟨ackC (cfgOf c0 ⟨s.l1.nodes i, s.applied i, s.pend i⟩) (s.l1.nodes i) i (s.l1.nodes i).log.length,
+        s.applied i, s.pend i⟩ net1) i (by rw [put_l1_node]; exact hrole)
+      rw [put_l1_node, put_applied, put_pend, cfg_put] at this
+      have hcfg : cfgOf c0 (⟨ackC (cfgOf c0 ⟨s.l1.nodes i, s.applied i, s.pend i⟩) (s.l1.nodes i) i (s.l1.nodes i).log.length,
+          s.applied i, s.pend i⟩ : NodeC N) = cfgOf c0 ⟨s.l1.nodes i, s.applied i, s.pend i⟩ := by
+        show cfgAt c0 (ackC (cfgOf c0 ⟨s.l1.nodes i, s.applied i, s.pend i⟩) (s.l1.nodes i) i (s.l1.nodes i).log.length).log (s.applied i) =
+          cfgAt c0 (s.l1.nodes i).log (s.applied i)
+        rw [hlog]
+      rw [hcfg] at this
+      exact this
+    · rw [if_neg hl]; exact OutcomeC.stay' rfl
+  | hup =>
+    simp only [handleC]
+    by_cases hg : campaignGate (decide ((s.l1.nodes i).role = Role.leader)) (nid i) (cfgOf c0 ⟨s.l1.nodes i, s.applied i, s.pend i⟩)
+        (pendingFlagsC ⟨s.l1.nodes i, s.applied i, s.pend i⟩) = false
+    · rw [if_pos hg]; exact OutcomeC.stay' rfl
+    · rw [if_neg hg]
+      have hg' : campaignGate (decide ((s.l1.nodes i).role = Role.leader)) (nid i) (cfgOf c0 ⟨s.l1.nodes i, s.applied i, s.pend i⟩)
+          (pendingFlagsC ⟨s.l1.nodes i, s.applied i, s.pend i⟩) = true := by
+        cases hb : campaignGate (decide ((s.l1.nodes i).role = Role.leader)) (nid i) (cfgOf c0 ⟨s.l1.nodes i, s.applied i, s.pend i⟩)
+          (pendingFlagsC ⟨s.l1.nodes i, s.applied i, s.pend i⟩) with
+        | false => exact absurd hb hg
+        | true => rfl
+      have st1 : OutcomeC c0 s i ⟨campaign (s.l1.nodes i) i, s.applied i, s.pend i⟩
+          (((List.finRange N).filter (fun d => d ≠ i ∧ isVoter (cfgOf c0 ⟨s.l1.nodes i, s.applied i, s.pend i⟩) d = true)).map
+            (fun d => .vote ((s.l1.nodes i).term + 1) i d (s.l1.nodes i).log.length (lastTerm (s.l1.nodes i).log))) :=
+        outcomeC_of_step (net' := send s.l1 fun m => ∃ dst, dst ≠ i ∧
+            m = .vote ((s.l1.nodes i).term + 1) i dst (s.l1.nodes i).log.length (lastTerm (s.l1.nodes i).log))
+          (StepC.hup s i hg') (by simp [cHup, SysC.put, updN_self]) send_mono (by
+            intro m hmem
+            simp only [List.mem_map, List.mem_filter, List.mem_finRange, true_and, decide_eq_true_eq] at hmem
+            obtain ⟨d, hd, rfl⟩ := hmem
+            exact mem_send ⟨d, hd.1, rfl⟩)
+      by_cases hw : wonVotesC (cfgOf c0 ⟨s.l1.nodes i, s.applied i, s.pend i⟩) (campaign (s.l1.nodes i) i) = true
+      · rw [if_pos hw]
+        obtain ⟨net1, sts, mono1, _⟩ := st1
+        have := outcomeC_win c0 (s.put i ⟨campaign (s.l1.nodes i) i, s.applied i, s.pend i⟩ net1) i
+          (by rw [put_l1_node]; simp [campaign]) (by rw [cfg_put, put_l1_node]; exact hw)
+        rw [put_l1_node, put_applied] at this
+        obtain ⟨net2, sts2, mono2, _⟩ := this
+        rw [put_put] at sts2
+        exact ⟨net2, sts.trans sts2, fun m h => mono2 m (mono1 m h), fun _ h => by cases h⟩
+      · rw [if_neg hw]
+        have := st1.chain (x' := ⟨campaign (s.l1.nodes i) i, s.applied i, 0⟩) (resp := []) fun net1 _ => by
+          have := outcomeC_setPend (c0 := c0) (s.put i ⟨campaign (s.l1.nodes i) i, s.applied i, s.pend i⟩ net1) i 0
+            (by rw [put_l1_node]; simp [campaign])
+          rw [put_l1_node, put_applied] at this
+          exact this
+        simpa using this
+  | recv m =>
+    obtain ⟨hm, hd, hok⟩ := hen
+    simp only [handleC]
+    by_cases hdr : dropped (cfgOf c0 ⟨s.l1.nodes i, s.applied i, s.pend i⟩) m = true
+    · rw [if_pos hdr]; exact OutcomeC.stay' rfl
+    · rw [if_neg hdr]
+      by_cases h1 : m.term < (s.l1.nodes i).term
+      · rw [if_pos h1]; exact OutcomeC.stay' rfl
+      · rw [if_neg h1]
+        by_cases h2 : (s.l1.nodes i).term < m.term
+        · rw [if_pos h2]
+          have st1 : OutcomeC c0 s i ⟨bump (s.l1.nodes i) m.term m.leadHint, s.applied i, 0⟩ [] := by
+            refine OutcomeC.chain0 (outcomeC_lift (Step1L.higherTerm s.l1 i m.term m.leadHint h2) (fun _ h => h) (fun _ h => by cases h))
+              fun net1 _ => ?_
+            have := outcomeC_setPend (c0 := c0) (s.put i ⟨bump (s.l1.nodes i) m.term m.leadHint, s.applied i, s.pend i⟩ net1) i 0
+              (by rw [put_l1_node]; simp [bump])
+            rw [put_l1_node, put_applied] at this
+            exact this
+          refine OutcomeC.chain0 st1 fun net1 mono1 => ?_
+          have := outcomeC_same c0 (s.put i ⟨bump (s.l1.nodes i) m.term m.leadHint, s.applied i, 0⟩ net1) i m (mono1 m hm) hd
+            (by rw [put_l1_node]; simp [bump]) (by rw [put_l1_node, put_applied]; simpa [bump] using happ)
+            (by rw [put_l1_node, put_applied, put_pend]; exact snapOK_bump hok)
+          rw [put_l1_node, put_applied, put_pend] at this
+          exact this
+        · rw [if_neg h2]
+          exact outcomeC_same c0 s i m hm hd (by omega) happ hok
+
+#print axioms outcomeC_same
+#print axioms handleC_outcome_partial
 end RHC
